@@ -188,6 +188,52 @@ def order_rule(repo, res, rule="ORDER"):
     res.check(ok2, rule, f"{rule}:call-variants-in-file-order", "call variants are taken in file order", f2.loc() if f2 else "")
 
 
+def twopass_rule(repo, res, rule="TWOPASS"):
+    """Which plain definitions are held against `a specialised nonterminal must be a command` cannot depend on where they stand in the
+    file: in Grammar::get_specializations every loop that can raise NonCommandSpecialization walks ALL definitions
+    (`self.iter_nonterm_defns()`), and the loop that tests membership in the set of specialised names starts after the loop that
+    fills that set has ended.  A list of candidates collected while the set is still being filled misses the definitions that stand
+    before their specialisation."""
+    fq = "parse::Grammar::get_specializations"
+    fn = repo.fn(fq)
+    if fn is None:
+        res.undecided(rule, f"{rule}:{fq}", "function not found")
+        return
+    envs = A.collect_envs(fn)
+    pm = A.parent_map(fn.body)
+    sites = list(P.ctor_sites(fn.body, "Error::NonCommandSpecialization"))
+    ok = bool(sites)
+    why = f"{len(sites)} NonCommandSpecialization site(s)"
+    for s in sites:
+        loops = [g[0] for g in A.guards_of(s, pm) if g[0]["k"] == "ForLoop"]
+        if not loops:
+            ok = False
+            why = "a NonCommandSpecialization site outside any loop over the definitions"
+            continue
+        it = A.resolve(loops[-1]["iter"], envs.get(id(loops[-1])))
+        while it[0] in ("ref", "deref") or (it[0] == "mcall" and it[1] in ("iter", "into_iter")):
+            it = it[1] if it[0] != "mcall" else it[2]
+        if not (it[0] == "mcall" and it[1] == "iter_nonterm_defns"):
+            ok = False
+            why = f"a loop that can raise NonCommandSpecialization walks {A.show(it)[:70]}, not all definitions"
+    res.check(ok, rule, f"{rule}:{fq}:checks-walk-all-definitions", why, fn.loc())
+    # membership tests on a set are made only after the loop that fills it
+    bad = []
+    for ins in P.find_calls(fn.body, methods={"insert"}):
+        r = ins["recv"]
+        if r["k"] != "Path" or len(ins["args"]) != 1:
+            continue
+        fill = [g[0] for g in A.guards_of(ins, pm) if g[0]["k"] == "ForLoop"]
+        if not fill:
+            continue
+        for c in P.find_calls(fn.body, methods={"contains"}):
+            if c["recv"]["k"] == "Path" and c["recv"]["path"] == r["path"]:
+                inside = any(g[0] is fill[-1] for g in A.guards_of(c, pm))
+                if inside:
+                    bad.append(f"{r['path']}.contains at line {c['l']} inside the loop that fills it")
+    res.check(not bad, rule, f"{rule}:{fq}:set-complete-before-tested", "the set of specialised names is tested only after the loop that fills it" if not bad else "; ".join(bad[:2]), fn.loc())
+
+
 def neutral_rule(repo, res, rule="NEUTRAL"):
     f = repo.fn("parse::parenthesized_expr")
     ok = False
@@ -423,6 +469,7 @@ def seqskip_rule(repo, res, rule="SEQSKIP"):
 
 
 def run(repo, res, tier):
+    twopass_rule(repo, res)
     from . import c08
     c08.guard_rules(repo, res)  # order of definitions: each rejection is decided by a predicate that does not depend on which definition comes first (e.g. duplicates among plain definitions only)
     seqskip_rule(repo, res)
